@@ -19,14 +19,15 @@ Lemma newtx_snoc s s' l : wab s' = wab s ++ l -> newtx s s' = map (fun f => (clk
 Proof. intros E. unfold newtx. rewrite E, skipn_app, skipn_all, Nat.sub_diag. reflexivity. Qed.
 
 Section BamLoop.
-  Variables (prio sa dp pf : Z) (p : list Z) (t0 : Z) (A0 B0 : node).
+  Variables (prio sa dp pf ps : Z) (p : list Z) (t0 : Z) (A0 B0 : node).
   Hypothesis Hprio : 0 <= prio < 8.
   Hypothesis Hsa : 0 <= sa < 255.
-  Hypothesis Hpf : 0 <= pf < 240.
+  (* a PDU1 group sent to the global address, or a PDU2 group (a broadcast whatever its group extension) *)
+  Hypothesis Hkind : (0 <= pf < 240 /\ ps = 255) \/ (240 <= pf < 256 /\ 0 <= ps < 256).
   Hypothesis Hdp : 0 <= dp < 2.
   Hypothesis Hsize : 8 < len p <= 1785.
   Hypothesis Ht0 : 0 < t0.
-  Let pv := dp * 65536 + pf * 256.
+  Let pv := if pf <? 240 then dp * 65536 + pf * 256 else dp * 65536 + pf * 256 + ps.
   Let np := npk (length p).
   Let num := Z.of_nat np.
   Let G := addr_GLOBAL.
@@ -49,16 +50,28 @@ Section BamLoop.
 
   (* ---- send_pgn to the global address *)
   Lemma send_pgn_bam a now : n_snd a = [] ->
-    flat (send_pgn a now dp pf 255 prio sa p) =
+    flat (send_pgn a now dp pf ps prio sa p) =
     (wake (set_snd a [(h, sbB (now + n_bam_iv a) 0)]), [OTx bamf], RDone 1).
   Proof.
-    intros Hs. unfold send_pgn. unfold pgn_mk. rewrite !land_255, land_1. rewrite !Z.mod_small by lia.
+    intros Hs. unfold send_pgn. unfold pgn_mk. rewrite !land_255, land_1.
+    assert (Hpfr : 0 <= pf < 256) by lia. assert (Hpsr : 0 <= ps < 256) by lia.
+    rewrite !Z.mod_small by lia.
     assert ((len p <=? 8) = false) as -> by lia.
-    change (255 =? addr_GLOBAL) with true. cbn [orb]. fold G. fold h. unfold tmem. rewrite Hs. cbn [tget].
+    assert (Hd : ((ps =? addr_GLOBAL) || pgn_is_pdu2_of 0 pf ps) = true).
+    { destruct Hkind as [(H1 & ->)|(H1 & H2)]; [reflexivity|].
+      unfold pgn_is_pdu2_of, pgn_mk. rewrite !land_255. rewrite (Z.mod_small pf) by lia.
+      unfold pgn_is_pdu2. destruct (Z.geb pf 240 && Z.leb pf 255) eqn:E; [apply orb_true_r|lia]. }
+    rewrite Hd. fold G. fold h. unfold tmem. rewrite Hs. cbn [tget].
     change (G =? addr_GLOBAL) with true. cbv iota.
-    assert (pgn_is_pdu1 pf = true) as ->.
-    { unfold pgn_is_pdu1. destruct (Z.geb pf 0 && Z.leb pf 239) eqn:E; [reflexivity|lia]. }
-    rewrite pgn_value_arith by lia. replace (dp * 65536 + pf * 256 + 0) with pv by (unfold pv; lia).
+    assert (Hpv : pgn_value dp pf (if pgn_is_pdu1 pf then 0 else ps) = pv).
+    { unfold pv. destruct Hkind as [(H1 & H2)|(H1 & H2)].
+      - assert (pgn_is_pdu1 pf = true) as ->.
+        { unfold pgn_is_pdu1. destruct (Z.geb pf 0 && Z.leb pf 239) eqn:E; [reflexivity|lia]. }
+        assert ((pf <? 240) = true) as -> by lia. rewrite pgn_value_arith by lia. lia.
+      - assert (pgn_is_pdu1 pf = false) as ->.
+        { unfold pgn_is_pdu1. destruct (Z.geb pf 0 && Z.leb pf 239) eqn:E; [lia|reflexivity]. }
+        assert ((pf <? 240) = false) as -> by lia. rewrite pgn_value_arith by lia. reflexivity. }
+    rewrite Hpv.
     replace (num_packets (len p)) with num by (unfold num, np, len; symmetry; apply num_packets_npk).
     rewrite Z.eqb_refl. cbn [flat]. rewrite Hs. reflexivity.
   Qed.
@@ -75,7 +88,7 @@ Section BamLoop.
     cbn [bamf tp21_bam f_data]. unfold tp21_cm_control, tp21_cm_pgn, tp21_bam_message_size, tp21_bam_num_packages, byte_at.
     cbn [nth length]. rewrite !land_255. rewrite !shiftr_div by lia. pow2_norm.
     repeat split; try reflexivity.
-    - apply le24. unfold pv. lia.
+    - apply le24. unfold pv. destruct (pf <? 240); lia.
     - apply le16. lia.
   Qed.
 
@@ -264,7 +277,7 @@ Section BamLoop.
     - apply Nat.eqb_neq in E. apply (IH (np - S k)%nat ltac:(lia) (S k)); [reflexivity|exact Hn].
   Qed.
 
-  Lemma start_is_bam : Sh0 (net_send (net0 A0 B0 t0) dp pf 255 prio sa p).
+  Lemma start_is_bam : Sh0 (net_send (net0 A0 B0 t0) dp pf ps prio sa p).
   Proof.
     destruct HA as (As & Ar & At). destruct HB as (Bs & Br & Bt).
     unfold net_send, net0. cbn [na nb qa qb clk eva evb wab wba].
@@ -273,7 +286,7 @@ Section BamLoop.
     repeat split; assumption || reflexivity.
   Qed.
 
-  Theorem bam_closed_loop : breaches (net_send (net0 A0 B0 t0) dp pf 255 prio sa p).
+  Theorem bam_closed_loop : breaches (net_send (net0 A0 B0 t0) dp pf ps prio sa p).
   Proof.
     apply breaches_step. apply (wait_reaches (np - 0)%nat 0%nat); [reflexivity|]. apply B0_bam. apply start_is_bam.
   Qed.
@@ -318,18 +331,38 @@ Section BamLoop.
     - apply Nat.eqb_neq in E. apply (IH (np - S k)%nat ltac:(lia) (S k)); [reflexivity|exact Hn].
   Qed.
 
-  Theorem bam_closed_loop_timed : treaches (net_send (net0 A0 B0 t0) dp pf 255 prio sa p) (tail_log 0).
+  Theorem bam_closed_loop_timed : treaches (net_send (net0 A0 B0 t0) dp pf ps prio sa p) (tail_log 0).
   Proof.
     pose proof start_is_bam as H0. pose proof (B0_bam _ H0) as H1.
-    replace (tail_log 0) with (newtx (net_send (net0 A0 B0 t0) dp pf 255 prio sa p)
-                                     (step (net_send (net0 A0 B0 t0) dp pf 255 prio sa p)) ++ tail_log 0).
+    replace (tail_log 0) with (newtx (net_send (net0 A0 B0 t0) dp pf ps prio sa p)
+                                     (step (net_send (net0 A0 B0 t0) dp pf ps prio sa p)) ++ tail_log 0).
     - apply treaches_step. apply (wait_treaches (np - 0)%nat 0%nat); [reflexivity|exact H1].
     - rewrite newtx_same; [reflexivity|].
       rewrite (wait_w _ _ H1). destruct H0 as (_ & _ & _ & _ & _ & _ & _ & Hw). rewrite Hw. reflexivity.
   Qed.
 End BamLoop.
 
-(* T01.9: broadcast, closed loop, stated without the proof's vocabulary *)
+(* T01.9: broadcast, closed loop, stated without the proof's vocabulary — for a PDU1 group sent to the global address
+   (ps = 255, delivered under PGN dp.pf.00) and for a PDU2 group (any group extension, delivered under PGN dp.pf.ps) *)
+Definition bam_pgn (dp pf ps : Z) : Z := if pf <? 240 then dp * 65536 + pf * 256 else dp * 65536 + pf * 256 + ps.
+
+Theorem bam_closed_loop_delivers_any prio sa dp pf ps p t0 A0 B0 :
+  0 <= prio < 8 -> 0 <= sa < 255 -> (0 <= pf < 240 /\ ps = 255) \/ (240 <= pf < 256 /\ 0 <= ps < 256) ->
+  0 <= dp < 2 -> 8 < len p <= 1785 -> 0 < t0 ->
+  0 < n_bam_iv A0 < tp21_T1 ->
+  n_snd A0 = [] /\ n_rcv A0 = [] /\ n_timers A0 = [] ->
+  n_snd B0 = [] /\ n_rcv B0 = [] /\ n_timers B0 = [] ->
+  let pv := bam_pgn dp pf ps in
+  exists j, let s := steps j (net_send (net0 A0 B0 t0) dp pf ps prio sa p) in
+    qa s = [] /\ qb s = [] /\ n_snd (na s) = [] /\ n_rcv (na s) = [] /\ n_snd (nb s) = [] /\ n_rcv (nb s) = [] /\
+    evb s = deliveries B0 7 pv sa addr_GLOBAL p /\
+    wab s = tp21_bam sa prio pv (len p) (Z.of_nat (npk (length p)))
+            :: map (fun k => tp21_dt sa addr_GLOBAL (dt_payload p (Z.of_nat k))) (seq 0 (npk (length p))).
+Proof.
+  intros H1 H2 H3 H4 H5 H6 H7 HA HB pv.
+  destruct (bam_closed_loop prio sa dp pf ps p t0 A0 B0 H1 H2 H3 H4 H5 H6 H7 HA HB) as (j & H). exists j. exact H.
+Qed.
+
 Theorem bam_closed_loop_delivers prio sa dp pf p t0 A0 B0 :
   0 <= prio < 8 -> 0 <= sa < 255 -> 0 <= pf < 240 -> 0 <= dp < 2 -> 8 < len p <= 1785 -> 0 < t0 ->
   0 < n_bam_iv A0 < tp21_T1 ->
@@ -343,11 +376,36 @@ Theorem bam_closed_loop_delivers prio sa dp pf p t0 A0 B0 :
             :: map (fun k => tp21_dt sa addr_GLOBAL (dt_payload p (Z.of_nat k))) (seq 0 (npk (length p))).
 Proof.
   intros H1 H2 H3 H4 H5 H6 H7 HA HB pv.
-  destruct (bam_closed_loop prio sa dp pf p t0 A0 B0 H1 H2 H3 H4 H5 H6 H7 HA HB) as (j & H). exists j. exact H.
+  pose proof (bam_closed_loop_delivers_any prio sa dp pf 255 p t0 A0 B0 H1 H2 (or_introl (conj H3 eq_refl)) H4 H5 H6 H7 HA HB) as H.
+  unfold bam_pgn in H. assert ((pf <? 240) = true) as E by lia. rewrite E in H. exact H.
 Qed.
 
 (* T09.17: the same run with its times: packet k leaves at t0 + (k+1)·iv — consecutive packets of the broadcast are exactly
    the configured interval apart, and the first follows the announcement by one interval *)
+Theorem bam_closed_loop_paced_any prio sa dp pf ps p t0 A0 B0 :
+  0 <= prio < 8 -> 0 <= sa < 255 -> (0 <= pf < 240 /\ ps = 255) \/ (240 <= pf < 256 /\ 0 <= ps < 256) ->
+  0 <= dp < 2 -> 8 < len p <= 1785 -> 0 < t0 ->
+  0 < n_bam_iv A0 < tp21_T1 ->
+  n_snd A0 = [] /\ n_rcv A0 = [] /\ n_timers A0 = [] ->
+  n_snd B0 = [] /\ n_rcv B0 = [] /\ n_timers B0 = [] ->
+  let pv := bam_pgn dp pf ps in
+  let iv := n_bam_iv A0 in
+  let s0 := net_send (net0 A0 B0 t0) dp pf ps prio sa p in
+  wab s0 = [tp21_bam sa prio pv (len p) (Z.of_nat (npk (length p)))] /\ clk s0 = t0 /\
+  exists j, (qa (steps j s0) = [] /\ qb (steps j s0) = [] /\ n_snd (na (steps j s0)) = [] /\ n_rcv (nb (steps j s0)) = [] /\
+             evb (steps j s0) = deliveries B0 7 pv sa addr_GLOBAL p) /\
+    tlog j s0 = map (fun k => (t0 + Z.of_nat (S k) * iv, tp21_dt sa addr_GLOBAL (dt_payload p (Z.of_nat k)))) (seq 0 (npk (length p))).
+Proof.
+  intros H1 H2 H3 H4 H5 H6 H7 HA HB pv iv s0.
+  pose proof (start_is_bam prio sa dp pf ps p t0 A0 B0) as HS.
+  repeat match type of HS with ?P -> _ => specialize (HS ltac:(assumption)) end.
+  destruct HS as (Hc & _ & _ & _ & _ & _ & _ & Hw).
+  split; [exact Hw|]. split; [exact Hc|].
+  destruct (bam_closed_loop_timed prio sa dp pf ps p t0 A0 B0 H1 H2 H3 H4 H5 H6 H7 HA HB) as (j & Hd & Hl). exists j.
+  split; [|unfold s0; rewrite Hl; unfold tail_log; rewrite Nat.sub_0_r; reflexivity].
+  destruct Hd as (Q1 & Q2 & Q3 & Q4 & Q5 & Q6 & Q7 & _). repeat split; assumption.
+Qed.
+
 Theorem bam_closed_loop_paced prio sa dp pf p t0 A0 B0 :
   0 <= prio < 8 -> 0 <= sa < 255 -> 0 <= pf < 240 -> 0 <= dp < 2 -> 8 < len p <= 1785 -> 0 < t0 ->
   0 < n_bam_iv A0 < tp21_T1 ->
@@ -362,14 +420,17 @@ Theorem bam_closed_loop_paced prio sa dp pf p t0 A0 B0 :
     tlog j s0 = map (fun k => (t0 + Z.of_nat (S k) * iv, tp21_dt sa addr_GLOBAL (dt_payload p (Z.of_nat k)))) (seq 0 (npk (length p))).
 Proof.
   intros H1 H2 H3 H4 H5 H6 H7 HA HB pv iv s0.
-  pose proof (start_is_bam prio sa dp pf p t0 A0 B0) as HS.
-  repeat match type of HS with ?P -> _ => specialize (HS ltac:(assumption)) end.
-  destruct HS as (Hc & _ & _ & _ & _ & _ & _ & Hw).
-  split; [exact Hw|]. split; [exact Hc|].
-  destruct (bam_closed_loop_timed prio sa dp pf p t0 A0 B0 H1 H2 H3 H4 H5 H6 H7 HA HB) as (j & Hd & Hl). exists j.
-  split; [|unfold s0; rewrite Hl; unfold tail_log; rewrite Nat.sub_0_r; reflexivity].
-  destruct Hd as (Q1 & Q2 & Q3 & Q4 & Q5 & Q6 & Q7 & _). repeat split; assumption.
+  pose proof (bam_closed_loop_paced_any prio sa dp pf 255 p t0 A0 B0 H1 H2 (or_introl (conj H3 eq_refl)) H4 H5 H6 H7 HA HB) as H.
+  unfold bam_pgn in H. assert ((pf <? 240) = true) as E by lia. rewrite E in H. exact H.
 Qed.
+
+Example bam_closed_loop_pdu2_instance :
+  let A := init_node 3 None None in
+  let B := subscribe (init_node 2 None None) 7 FNone in
+  let p := map Z.of_nat (seq 1 20) in
+  let s := steps 10 (net_send (net0 A B 1000) 0 254 202 6 128 p) in
+  quiet s = true /\ evb s = [OCb 7 7 65226 128 p] /\ length (wab s) = 4%nat /\ wba s = [].
+Proof. vm_compute. repeat split. Qed.
 
 Example bam_closed_loop_instance :
   let A := init_node 3 None None in
